@@ -131,7 +131,7 @@ def run(ctx):
             rep.inconclusive.append(f'{r["logic"]}: {r["unknown"]} branch queries unknown/timeout')
         for b in r['bad']:
             key = prover.attribute('C02', r['logic'], b['argstr'], b['rules'], b['kind'])
-            if 'inexact-rule' not in key and b['identity'] and b['kind'] in ('unsat-branch', 'model', 'raise'):
+            if 'inexact-rule' not in key and b['identity'] and b['kind'] == 'unsat-branch':
                 key = f'C02|{r["logic"]}|identity|{b["kind"]}'
             if 'inexact-rule' not in key and b['kind'] == 'model':
                 what = re.sub(r'\(designated=.*', '', re.sub(r'node .*? \(', 'node (', b['why']))[:60]
